@@ -1,5 +1,6 @@
 """C07 - neutron data of every element and isotope are those of the embedded table."""
 from contracts import nsf as N
+from contracts import loaders as L
 
 ID = "C07"
 LEVEL = "proof"
@@ -13,7 +14,7 @@ EXPLANATION = ("Closed obligations (eval, exhaustive): all 364 rows x 11 fields,
 
 
 def units(tier):
-    return [N.U_SBW_PLAIN, N.U_SBW_TABLE, N.U_WAVELENGTH, N.U_ENERGY]
+    return [N.U_SBW_PLAIN, N.U_SBW_TABLE, N.U_WAVELENGTH, N.U_ENERGY] + L.U_NSF_ROW
 
 
 def runner_tasks(tier):
